@@ -93,6 +93,9 @@ func (d *DHCPv6) DecodeFromBytes(data []byte, df gopacket.DecodeFeedback) error 
 	}
 	d.BaseLayer = BaseLayer{Contents: data}
 	d.Options = d.Options[:0]
+	// a relay message has no transaction ID, any other message has no hop
+	// count and addresses: do not keep those of an earlier decode
+	d.HopCount, d.LinkAddr, d.PeerAddr, d.TransactionID = 0, nil, nil, nil
 	d.MsgType = DHCPv6MsgType(data[0])
 
 	offset := 0
